@@ -1,3 +1,4 @@
+import Sparrow.Proofs.BakeComposedFF
 import Sparrow.Proofs.BakeComposed
 import Sparrow.Proofs.UniversalFnEquiv
 import Sparrow.Proofs.StokesFnEquiv
@@ -221,3 +222,37 @@ theorem bakeGeometry_ff_lower_zero
   Sparrow.bakeGeometry_ff_lower_zero thr eta thres cut nus nv jp1 jp2 jc1 jc2 P pc pn pp pa ptw hasM W nIn D T dIn dOut bidx brdf fnone B att junk a b h
 
 end Sparrow.Props.C05.Composed
+
+namespace Sparrow.Props.C05.ComposedFF
+open Sparrow Sparrow.Generated.BakeGlue Sparrow.Generated.BakeKernels Sparrow.Generated.UniversalFn
+
+
+theorem bakeGeometry_ff_detached_eq_stokes
+    (vis2 : (Nat → Nat → ℝ) → (Nat → Nat → ℝ) → (Nat → Nat → Nat → ℝ) → Nat → Nat → Bool)
+    (thres cut : ℝ) (nus : (Nat → Nat → ℝ) → (Nat → ℝ) → (Nat → Nat → ℝ) → (Nat → ℝ) → Nat → ℝ) (nv : Nat)
+    (jp1 jp2 : Nat → Nat → ℝ) (jc1 jc2 : Nat → Nat → Nat)
+    (P : Nat) (pc pn : Nat → Nat → ℝ) (pp : Nat → Nat → Nat → ℝ) (pa : Nat → ℝ) (ptw : Nat → Nat)
+    (hasM : Bool) (W nIn D T : Nat) (dIn dOut : Nat → Nat → Nat → ℝ) (bidx : Nat → Nat) (brdf : Nat → Nat → Nat → Nat → ℝ)
+    (fnone : Bool) (B : Nat) (att : Option (Nat → ℝ)) (junk : Nat → Nat → Nat) (a b : Nat) (ha : a < P) (hb : b < P)
+    (h : vis2 pc pn pp a b = true)
+    (hdet : chooseIntegrator thres (ptsOf (fun k q => pp a k q)) (ptsOf (fun k q => pp b k q)) nv nv = Integrator.stokes) :
+    (bakeGeometry vis2 (ffuT thres cut nus nv jp1 jp2 jc1 jc2) P pc pn pp pa ptw hasM W nIn D T dIn dOut bidx brdf fnone B att junk).2.2.1 a b
+      = stokesFF cut (ptsOf (fun k q => pp a k q)) (ptsOf (fun k q => pp b k q)) nv nv (pa a) :=
+  Sparrow.bakeGeometry_ff_detached_eq_stokes vis2 thres cut nus nv jp1 jp2 jc1 jc2 P pc pn pp pa ptw hasM W nIn D T dIn dOut bidx brdf fnone B att junk a b ha hb h hdet
+
+/-- **lower bound of C05 about the composed text**: the stored form factor of any pair that is invisible, or visible and detached, is
+    non-negative -/
+theorem bakeGeometry_ff_nonneg
+    (vis2 : (Nat → Nat → ℝ) → (Nat → Nat → ℝ) → (Nat → Nat → Nat → ℝ) → Nat → Nat → Bool)
+    (thres cut : ℝ) (nus : (Nat → Nat → ℝ) → (Nat → ℝ) → (Nat → Nat → ℝ) → (Nat → ℝ) → Nat → ℝ) (nv : Nat)
+    (jp1 jp2 : Nat → Nat → ℝ) (jc1 jc2 : Nat → Nat → Nat)
+    (P : Nat) (pc pn : Nat → Nat → ℝ) (pp : Nat → Nat → Nat → ℝ) (pa : Nat → ℝ) (ptw : Nat → Nat)
+    (hasM : Bool) (W nIn D T : Nat) (dIn dOut : Nat → Nat → Nat → ℝ) (bidx : Nat → Nat) (brdf : Nat → Nat → Nat → Nat → ℝ)
+    (fnone : Bool) (B : Nat) (att : Option (Nat → ℝ)) (junk : Nat → Nat → Nat) (a b : Nat) (ha : a < P) (hb : b < P)
+    (hdet : vis2 pc pn pp a b = true →
+      chooseIntegrator thres (ptsOf (fun k q => pp a k q)) (ptsOf (fun k q => pp b k q)) nv nv = Integrator.stokes) :
+    0 ≤ (bakeGeometry vis2 (ffuT thres cut nus nv jp1 jp2 jc1 jc2) P pc pn pp pa ptw hasM W nIn D T dIn dOut bidx brdf fnone B att
+      junk).2.2.1 a b :=
+  Sparrow.bakeGeometry_ff_nonneg vis2 thres cut nus nv jp1 jp2 jc1 jc2 P pc pn pp pa ptw hasM W nIn D T dIn dOut bidx brdf fnone B att junk a b ha hb hdet
+
+end Sparrow.Props.C05.ComposedFF
